@@ -431,6 +431,8 @@ struct HistCfg {
     pool: usize,
     cancel: bool,
     lua: bool,
+    /// the node is built with ShardConfig::with_adaptive() (hot-key detection and load-balancer actors beside the shards)
+    adaptive: bool,
 }
 
 static TTL_HEAVY: std::sync::atomic::AtomicBool = std::sync::atomic::AtomicBool::new(false);
@@ -523,13 +525,23 @@ async fn join_or_stuck2(hs: Vec<tokio::task::JoinHandle<()>>, extra: &dyn Fn() -
     }
 }
 
+/// The node as the server builds it (PerformanceConfig); `adaptive`: with ShardConfig::with_adaptive(), i.e. the hot-key
+/// detector and load balancer actors running beside the shards and every accessor the data path consults for them live.
+fn build_state(pc: &PerformanceConfig, adaptive: bool) -> ShardedActorState {
+    if adaptive {
+        ShardedActorState::with_perf_config_and_time_source(pc, redis_sim::production::ShardConfig::with_shards(pc.num_shards).with_adaptive(), redis_sim::io::ProductionTimeSource::new())
+    } else {
+        ShardedActorState::with_perf_config(pc)
+    }
+}
+
 /// Returns the history and the calls that were still pending when the system went quiet for good.
 async fn run_history(cfg: &HistCfg, seed: u64) -> (Vec<Rec>, Vec<Rec>) {
     let mut pc: PerformanceConfig = toml_default();
     pc.num_shards = cfg.shards;
     pc.response_pool.capacity = cfg.pool.max(1);
     pc.response_pool.prewarm = cfg.pool.min(pc.response_pool.capacity);
-    let st = ShardedActorState::with_perf_config(&pc);
+    let st = build_state(&pc, cfg.adaptive);
     // the read-modify-write script is registered once, through the API, before the clients start
     let sha: Option<String> = if cfg.lua {
         match myresp::from_resp(&st.execute(&Command::ScriptLoad(SWAP_SCRIPT.to_string())).await) {
@@ -822,9 +834,14 @@ pub fn lin_leg(args: &Args) {
             pool: rng.gen_range(1..3),
             cancel: rng.gen_bool(0.5),
             lua,
+            adaptive: false,
         };
         // keep every key's sub-history within the checker's 63-operation window
         let mut cfg = cfg;
+        cfg.adaptive = h % 4 == 3;
+        if cfg.adaptive {
+            rep.count("histories_on_an_adaptive_node");
+        }
         cfg.ops_per_client = if small { 6 } else { rng.gen_range(6..24).min(60 * cfg.keys / cfg.clients).max(3) };
         PAUSE_SEED.store(h64(&(args.seed, args.shard, h)), Ordering::Relaxed);
         let rt = tokio::runtime::Builder::new_multi_thread().worker_threads(workers).enable_all().build().unwrap();
@@ -920,6 +937,7 @@ struct ConnCfg {
     read_size: usize,
     shared_pool: bool,
     lua: bool,
+    adaptive: bool,
 }
 
 #[derive(Default)]
@@ -934,7 +952,7 @@ async fn run_conn_history(cfg: &ConnCfg, seed: u64) -> ConnOutcome {
     use redis_sim::production::{ConnectionConfig, ConnectionPool};
     let mut pc: PerformanceConfig = toml_default();
     pc.num_shards = cfg.shards;
-    let st = ShardedActorState::with_perf_config(&pc);
+    let st = build_state(&pc, cfg.adaptive);
     let ccfg = ConnectionConfig { max_buffer_size: 1 << 20, read_buffer_size: cfg.read_size, min_pipeline_buffer: cfg.min_pipeline_buffer, batch_threshold: cfg.batch_threshold };
     let pool = if cfg.shared_pool { Some(Arc::new(ConnectionPool::new(2, 2))) } else { None };
     let log: Arc<Mutex<ConnOutcome>> = Arc::new(Mutex::new(ConnOutcome::default()));
@@ -1130,7 +1148,11 @@ pub fn conn_leg(args: &Args) {
             read_size: [24usize, 64, 8192][rng.gen_range(0..3)],
             shared_pool: rng.gen_bool(0.5),
             lua,
+            adaptive: h % 4 == 3,
         };
+        if cfg.adaptive {
+            rep.count("histories_on_an_adaptive_node");
+        }
         PAUSE_SEED.store(h64(&(args.seed, args.shard, h, 5u8)), Ordering::Relaxed);
         let rt = tokio::runtime::Builder::new_multi_thread().worker_threads(workers).enable_all().build().unwrap();
         let seed = h64(&(args.seed, args.shard as u64, h, 78u8));
